@@ -81,6 +81,7 @@ CHECKS = {
                                                   "quiescence of an event = no goroutine with a frame in hSet.dispatch / hNode.Handle"],
         "legs": [
             {"test": "TestC04_Population", "quick": {"checks": 400, "timeout": "15m"}, "thorough": {"checks": 4000, "shards": 2, "timeout": "60m"}},
+            {"test": "TestC04_Teardown", "quick": {"checks": 300, "timeout": "15m"}, "thorough": {"checks": 5000, "shards": 2, "timeout": "60m"}},
             {"test": "TestC04_Turnover", "quick": {"checks": 400, "timeout": "15m"}, "thorough": {"checks": 6000, "shards": 2, "timeout": "60m"}},
             {"test": "TestC04", "quick": {"checks": 1000, "timeout": "15m"},
              "thorough": {"checks": 4000, "shards": 4, "timeout": "60m"}},
